@@ -13,8 +13,8 @@ import time
 from harness import core
 
 PROP = 'C16'
-UNITS = ['Skel']
-PROOFS = ['theories/Child/Proofs.v']
+UNITS = ['Skel', 'Transport']
+PROOFS = ['theories/Child/Proofs.v', 'theories/Equiv/TransportProofs.v']
 
 
 def noop(*a, **k):
